@@ -100,6 +100,9 @@ def read_ndjson(path):
     return out
 
 
+SINGLE_EVENT_FAMILIES = {"search", "fen", "uci", "lichess", "pgn"}     # a case emits its (only) event when it is finished
+
+
 def run_harness(family, cases, wd, tag, prop, timeout=1200, extra=()):
     """Runs `ikv <family> cases trace`.  If the process dies (non-unwinding panic, signal), the death is
     recorded as a `panic` event of the case that was running and the harness is restarted on the
@@ -129,8 +132,14 @@ def run_harness(family, cases, wd, tag, prop, timeout=1200, extra=()):
             raise ToolError("harness usage error: " + err[-500:])
         # which case was running
         ids = [c.get("id") for c in remaining]
-        last = evs[-1]["c"] if evs else ids[0]
-        idx = ids.index(last) if last in ids else 0
+        if family in SINGLE_EVENT_FAMILIES:
+            # the case that was running is the one after the last case that reported
+            done = ids.index(evs[-1]["c"]) if evs and evs[-1]["c"] in ids else -1
+            idx = min(done + 1, len(ids) - 1)
+            last = ids[idx]
+        else:
+            last = evs[-1]["c"] if evs else ids[0]
+            idx = ids.index(last) if last in ids else 0
         msg = (err.strip().splitlines() or ["abnormal exit"])[-1][:300]
         with open(trace, "a") as f:
             f.write(json.dumps({"c": last, "ev": "panic", "during": "process (exit %s)" % rc,
